@@ -420,6 +420,11 @@ def check_property(prop, tier, seed, rebaseline=False, jobs=None):
             scanned.append(f"in the proof of {k.split(':')[1]} the list functions {list(c['opaque_funcs'])} are uninterpreted (their definitions are hidden; only what the listed lemmas state is used)")
         if c.get("dict_membership_only") and not c.get("assumed"):
             scanned.append(f"in the proof of {k.split(':')[1]} `d[k] = v` on a dictionary is modelled by membership and lookup only (the position of a new key is left unspecified: an over-approximation)")
+        if c.get("dictcomp_duplicates") and not c.get("assumed"):
+            scanned.append(f"in the proof of {k.split(':')[1]} a dict comprehension over a list that may repeat an element is modelled with the entry of a "
+                           "repeated key left open among the values computed for it (Python keeps the last; the values differ only in object identity)")
+        if c.get("decreases") and any("size" in str(a) for a in c.get("axioms", [])):
+            scanned.append(f"termination of the recursion in {k.split(':')[1]} is relative to the assumed size lemma listed above")
         if c.get("external"):
             scanned.append(f"{k.split(':')[1]} is a library function without source in the repository: its contract is a model")
     ev = {"property_id": prop, "tier": tier, "seed": seed, "level": level, "coverage": cov,
